@@ -24,6 +24,8 @@ val add : nat -> nat -> nat
 
 val mul : nat -> nat -> nat
 
+val eqb : nat -> nat -> bool
+
 type positive =
 | XI of positive
 | XO of positive
@@ -220,9 +222,15 @@ val concat : 'a1 list list -> 'a1 list
 
 val map : ('a1 -> 'a2) -> 'a1 list -> 'a2 list
 
+val flat_map : ('a1 -> 'a2 list) -> 'a1 list -> 'a2 list
+
+val fold_left : ('a1 -> 'a2 -> 'a1) -> 'a2 list -> 'a1 -> 'a1
+
 val forallb : ('a1 -> bool) -> 'a1 list -> bool
 
 val filter : ('a1 -> bool) -> 'a1 list -> 'a1 list
+
+val find : ('a1 -> bool) -> 'a1 list -> 'a1 option
 
 val combine : 'a1 list -> 'a2 list -> ('a1 * 'a2) list
 
@@ -810,6 +818,8 @@ val rsw_select0 : rswide -> n -> n option outcome
 
 val rsw_get : rswide -> n -> bool option outcome
 
+val rsw_get_unchecked : rswide -> n -> bool outcome
+
 type inventories = { inv_n_sets : n; inv_block : z list; inv_sub : n list;
                      inv_overflow : n list }
 
@@ -853,3 +863,170 @@ val strictly_increasing : n list -> bool
 val da_from_positions : bool -> n list -> darray outcome
 
 val da_from_bools : bool -> bool list -> darray outcome
+
+type pcode = { pc_content : n; pc_len : n }
+
+val pc_zero : pcode
+
+val craft_expand : n -> n list -> n -> n -> n -> n list outcome
+
+val craft_grow :
+  n -> n list -> n -> n -> n -> n -> nat -> (n list * n) outcome
+
+val rev_frags : n -> n -> n -> n -> nat -> n
+
+val craft_assign :
+  n -> (n * n) list -> n list -> n -> n -> n -> pcode list -> pcode list
+  outcome
+
+val craft_wm_codes : n -> (n * n) list -> n -> n -> pcode list outcome
+
+val craft4 : (n * n) list -> n -> pcode list outcome
+
+val craft2 : (n * n) list -> n -> pcode list outcome
+
+val insert_sorted : (n * n) -> (n * n) list -> (n * n) list
+
+val sort_by_key : (n * n) list -> (n * n) list
+
+val decode_tables : pcode list -> n -> (n * n) list list
+
+val table_lookup : (n * n) list -> n -> n outcome
+
+type hqwt = { h_n : n; h_n_levels : n; h_codes : pcode list;
+              h_decode : (n * n) list list; h_qvs : rsq list; h_lens : 
+              n list }
+
+val sym_index : n -> n
+
+val part_with_codes : n -> n list -> n -> pcode list -> n list outcome
+
+val hq_levels :
+  n -> n list -> pcode list -> n -> nat -> (rsq list * n list) outcome
+
+val hq_build : n -> n list -> pcode list -> hqwt outcome
+
+val hq_new : n -> n list -> (n * n) list -> hqwt outcome
+
+val hq_len : hqwt -> n
+
+val hq_get_walk : n -> hqwt -> n -> n -> n -> n -> nat -> (n * n) outcome
+
+val hq_get_unchecked : n -> n -> hqwt -> n -> n outcome
+
+val hq_get : n -> n -> hqwt -> n -> n option outcome
+
+val hq_code_of : hqwt -> n -> pcode option
+
+val hq_rank_walk :
+  n -> rsq list -> n -> n -> n -> n -> n -> nat -> (n * n) outcome
+
+val hq_rank_unchecked : n -> hqwt -> n -> n -> n outcome
+
+val hq_rank : n -> hqwt -> n -> n -> n option outcome
+
+val hq_select_down :
+  n -> rsq list -> n -> n -> n -> n -> nat -> (n * n) list option outcome
+
+val hq_select_up :
+  n -> rsq list -> n -> n -> n -> ((n * n) * n) list -> n option outcome
+
+val hq_select : n -> hqwt -> n -> n -> n option outcome
+
+val hq_select_unchecked : n -> hqwt -> n -> n -> n outcome
+
+val hq_estimate_walk :
+  n -> rsq list -> n -> n -> n -> n -> n -> nat -> unit outcome
+
+val hq_rank_prefetch_unchecked : n -> hqwt -> n -> n -> n outcome
+
+val hq_rank_prefetch : n -> hqwt -> n -> n -> n option outcome
+
+type bwt = { w_n : n; w_n_levels : n; w_sigma : n option;
+             w_codes : pcode list option;
+             w_decode : (n * n) list list option; w_bvs : rswide list;
+             w_lens : n list }
+
+val one_bit : n -> n -> n -> n outcome
+
+val stable_partition_of_2 : n -> n list -> n -> n list outcome
+
+val wt_levels :
+  n -> bool -> n list -> pcode list -> n -> n -> nat -> (rswide list * n
+  list) outcome
+
+val wt_build : n -> bool -> n list -> pcode list -> bwt outcome
+
+val hwt_new : n -> n list -> (n * n) list -> bwt outcome
+
+val wt_bit_at : n -> bool -> n -> n -> n -> n -> bool outcome
+
+val wt_get_walk :
+  bool -> bwt -> n -> n -> n -> n -> n -> n -> nat -> ((n * n) * n) outcome
+
+val wt_get_unchecked : n -> bool -> bwt -> n -> n outcome
+
+val wt_get : n -> bool -> bwt -> n -> n option outcome
+
+val wt_valid : bool -> bwt -> n -> (n * n) option outcome
+
+val wt_rank_walk :
+  n -> bool -> rswide list -> n -> n -> n -> n -> n -> n -> nat -> (n * n)
+  outcome
+
+val wt_rank_unchecked : n -> bool -> bwt -> n -> n -> n outcome
+
+val wt_rank : n -> bool -> bwt -> n -> n -> n option outcome
+
+val wt_select_down :
+  n -> bool -> rswide list -> n -> n -> n -> n -> n -> nat -> (n * n) list
+  option outcome
+
+val wt_select_up :
+  n -> bool -> rswide list -> n -> n -> n -> n -> ((n * n) * n) list -> n
+  option outcome
+
+val wt_select : n -> bool -> bwt -> n -> n -> n option outcome
+
+val wt_select_unchecked : n -> bool -> bwt -> n -> n -> n outcome
+
+type ty =
+| TU of nat
+| TBool
+| TSeq of ty
+| TArr of nat * ty
+| TOpt of ty
+| TTuple of ty list
+| TUnit
+
+type value =
+| VU of n
+| VBool of bool
+| VSeq of value list
+| VOpt of value option
+| VTuple of value list
+| VUnit
+
+val le_bytes : nat -> n -> n list
+
+val le_value : n list -> n
+
+val take_bytes : nat -> n list -> (n list * n list) option
+
+val dec_nat :
+  (n list -> ('a1 * n list) option) -> nat -> n list -> ('a1 list * n list)
+  option
+
+val dec_pos :
+  (n list -> ('a1 * n list) option) -> positive -> n list -> ('a1 list * n
+  list) option
+
+val dec_N :
+  (n list -> ('a1 * n list) option) -> n -> n list -> ('a1 list * n list)
+  option
+
+val wt : ty -> value -> bool
+
+val encode : ty -> value -> n list
+
+val decode : ty -> n list -> (value * n list) option
